@@ -150,6 +150,33 @@ class Ctx:
             setattr(self, key, out)
         return getattr(self, key)
 
+    def vhb_perturbed(self):
+        """bubble test binary built against a copy of REPO in which every statement of the concurrent packages is a
+        yield point (harness/cmd/vinstr); the copy is made from the current working tree on every run"""
+        if getattr(self, "_vhb_p", None) is None:
+            t = time.time()
+            tool = self.path("vinstr")
+            self.run([GO, "build", "-o", tool, "./cmd/vinstr"], cwd=self.harness_dir(), env=self.goenv(), timeout=900, check=True)
+            dst = self.path("repo_instr")
+            rc, o = self.run([tool, "-src", REPO, "-dst", dst, "-pkgs", "stream,parallel,chans,xsync,xtime"], timeout=300)
+            if rc != 0:
+                raise Trouble("vinstr failed:\n" + o[-3000:])
+            m = re.search(r"INSTR (\{.*\})", o)
+            self.extra["schedule_perturbation"] = json.loads(m.group(1)) if m else {}
+            hd = self.path("harness_p")
+            shutil.copytree(os.path.join(VERIF, "harness"), hd)
+            gm = open(os.path.join(hd, "go.mod")).read()
+            gm = re.sub(r"=> /repo\b", "=> " + dst, gm)
+            open(os.path.join(hd, "go.mod"), "w").write(gm)
+            shutil.copy(os.path.join(REPO, "go.sum"), os.path.join(hd, "go.sum"))
+            out = self.path("vhb-p")
+            rc, o = self.run([GO, "test", "-c", "-tags", "verif verifsched", "-o", out, "./bubble"], cwd=hd, env=self.goenv(), timeout=900)
+            if rc != 0:
+                raise Trouble("perturbed bubble harness does not build against the instrumented copy of %s:\n%s" % (REPO, o[-6000:]))
+            self.log("built vhb-p (instrumented copy, %s) in %.1fs" % (self.extra["schedule_perturbation"], time.time() - t))
+            self._vhb_p = out
+        return self._vhb_p
+
     def run_vh(self, args, timeout=1800, env_extra=None):
         env = self.goenv()
         env["VERIF_SEED"] = str(self.seed)
@@ -159,15 +186,18 @@ class Ctx:
         rc, out = self.run([self.vh()] + args, env=env, timeout=timeout)
         return rc, out
 
-    def run_vhb(self, test, args, timeout=1800, race=False, env_extra=None):
+    def run_vhb(self, test, args, timeout=1800, race=False, env_extra=None, perturb=False):
         env = self.goenv()
+        if perturb:
+            env["VH_PERTURB"] = "1"
+            env["GOMAXPROCS"] = "1"
         env["VERIF_SEED"] = str(self.seed)
         env["VERIF_TIER"] = self.tier
         for k, v in args.items():
             env["VH_" + k.upper()] = str(v)
         if env_extra:
             env.update(env_extra)
-        rc, out = self.run([self.vhb(race), "-test.run", "^%s$" % test, "-test.timeout", "%ds" % timeout, "-test.count=1"],
+        rc, out = self.run([self.vhb_perturbed() if perturb else self.vhb(race), "-test.run", "^%s$" % test, "-test.timeout", "%ds" % timeout, "-test.count=1"],
                            env=env, timeout=timeout + 30)
         return rc, out
 
@@ -392,9 +422,10 @@ class Ctx:
               "violations": len(self.violations)}
         # evidence describes runs against /repo itself; a run against a scratch tree (VERIF_REPO, used by
         # bin/seedtest and bin/selftest) must not overwrite it
-        evdir = os.path.join(VERIF, "evidence") if REPO == "/repo" else tempfile.mkdtemp(prefix="verif-evidence-")
-        os.makedirs(evdir, exist_ok=True)
-        json.dump(ev, open(os.path.join(evdir, "%s.json" % self.pid), "w"), indent=1, default=str)
+        if REPO == "/repo":
+            evdir = os.path.join(VERIF, "evidence")
+            os.makedirs(evdir, exist_ok=True)
+            json.dump(ev, open(os.path.join(evdir, "%s.json" % self.pid), "w"), indent=1, default=str)
         self.cleanup()
         if self.violations:
             self.log("FAILED: %d violation(s)" % len(self.violations))
